@@ -70,3 +70,26 @@ func VerifScalarMult(op string, a, A, b []byte) (res []byte, ok bool) {
 	}
 	panic("VerifScalarMult: unknown operation " + op)
 }
+
+// VerifScalarDigits returns the signed radix-16 digits ("radix16") or the width-w non-adjacent form
+// ("naf5", "naf8") of a scalar, one byte per digit (two's complement).
+func VerifScalarDigits(kind string, x []byte) []byte {
+	var out []byte
+	switch kind {
+	case "radix16":
+		for _, d := range edwards25519.VerifSignedRadix16(x) {
+			out = append(out, byte(d))
+		}
+	case "naf5", "naf8":
+		w := uint(5)
+		if kind == "naf8" {
+			w = 8
+		}
+		for _, d := range edwards25519.VerifNonAdjacentForm(x, w) {
+			out = append(out, byte(d))
+		}
+	default:
+		panic("VerifScalarDigits: unknown kind " + kind)
+	}
+	return out
+}
